@@ -676,3 +676,97 @@ Proof.
     2:{ unfold step. cbn [Nat.eqb Nat.sub skipn]. rewrite Hh. reflexivity. }
     rewrite Hrest by lia. reflexivity.
 Qed.
+
+(* ------------------------------------------------------------------ the theorems *)
+Lemma trie_prefixes_total_lemma : forall kvs q, trie_prefixes (trie_run trie_empty kvs) q <> None.
+Proof.
+  intros kvs q. unfold trie_prefixes.
+  destruct (impl (trie_run trie_empty kvs)) as [im|]; [|discriminate].
+  rewrite prefixes_top. discriminate.
+Qed.
+
+Lemma Bytes_key_firstn q n : Bytes_key q -> Bytes_key (firstn n q).
+Proof.
+  intros H. revert n. induction H as [|b r Hb Hr IH]; intros [|n]; cbn [firstn]; try constructor; auto.
+  apply IH.
+Qed.
+
+Lemma trie_prefixes_all_in_order_lemma : forall kvs q,
+  Forall (fun kv => Bytes_key (fst kv)) kvs -> Bytes_key q ->
+  trie_prefixes (trie_run trie_empty kvs) q = Some (spec_prefixes kvs q).
+Proof.
+  intros kvs q HB _.
+  pose proof (trie_run_empty_inv kvs HB) as HT.
+  unfold trie_prefixes, TInv in *.
+  destruct (impl (trie_run trie_empty kvs)) as [im|].
+  - rewrite prefixes_top. f_equal. unfold spec_prefixes.
+    apply flat_map_ext. intros j. unfold out.
+    destruct HT as [_ [_ I1]]. rewrite I1. reflexivity.
+  - f_equal. symmetry. unfold spec_prefixes. apply flat_map_nil.
+    intros j _. rewrite HT. reflexivity.
+Qed.
+
+(* the last element of a list built from at most one item per index *)
+Lemma last_flat (F : nat -> option nat) (P : nat -> key) : forall len,
+  ((forall n, n < len -> F n = None) /\
+   flat_map (fun n => match F n with Some v => [(P n, v)] | None => [] end) (seq 0 len) = [])
+  \/ (exists n v, n < len /\ F n = Some v /\
+        last (flat_map (fun n => match F n with Some v => [(P n, v)] | None => [] end) (seq 0 len))
+             ([], 0) = (P n, v) /\
+        forall m, n < m -> m < len -> F m = None).
+Proof.
+  induction len as [|len IH].
+  - left. split; [intros n Hn; lia|reflexivity].
+  - rewrite seq_S, flat_map_app. cbn [Nat.add flat_map].
+    destruct (F len) as [v|] eqn:E.
+    + right. exists len, v. split; [lia|]. split; [exact E|]. split.
+      * cbn [app]. apply last_last.
+      * intros m H1 H2. lia.
+    + cbn [app]. rewrite app_nil_r.
+      destruct IH as [[Hall Hnil]|[n [v [Hn [Hv [Hlast Hafter]]]]]].
+      * left. split; [|exact Hnil].
+        intros n Hn. destruct (Nat.eq_dec n len) as [->|Hne]; [exact E|]. apply Hall. lia.
+      * right. exists n, v. split; [lia|]. split; [exact Hv|]. split; [exact Hlast|].
+        intros m H1 H2. destruct (Nat.eq_dec m len) as [->|Hne]; [exact E|]. apply Hafter; lia.
+Qed.
+
+Lemma spec_last kvs q :
+  ((forall n, n < S (length q) -> last_value kvs (firstn n q) = None) /\ spec_prefixes kvs q = [])
+  \/ (exists n v, n < S (length q) /\ last_value kvs (firstn n q) = Some v /\
+        last (spec_prefixes kvs q) ([], 0) = (firstn n q, v) /\
+        forall m, n < m -> m < S (length q) -> last_value kvs (firstn m q) = None).
+Proof.
+  exact (last_flat (fun n => last_value kvs (firstn n q)) (fun n => firstn n q) (S (length q))).
+Qed.
+
+Lemma trie_get_longest_prefix_lemma : forall kvs q,
+  Forall (fun kv => Bytes_key (fst kv)) kvs -> Bytes_key q ->
+  exists p v, trie_get (trie_run trie_empty kvs) q = Some (p, v) /\
+    (((forall n, last_value kvs (firstn n q) = None) /\ p = [] /\ v = 0)
+     \/ (exists n, n <= length q /\ p = firstn n q /\ last_value kvs p = Some v
+                   /\ forall m, n < m -> m <= length q -> last_value kvs (firstn m q) = None)).
+Proof.
+  intros kvs q HB Hq. unfold trie_get.
+  rewrite (trie_prefixes_all_in_order_lemma kvs q HB Hq).
+  destruct (spec_last kvs q) as [[Hall Hnil]|[n [v [Hn [Hv [Hlast Hafter]]]]]].
+  - exists [], 0. rewrite Hnil. split; [reflexivity|].
+    left. split; [|split; reflexivity].
+    intros n. destruct (le_dec n (length q)) as [Hle|Hgt].
+    + apply Hall. lia.
+    + rewrite firstn_all2 by lia. rewrite <- (firstn_all q). apply Hall. lia.
+  - exists (firstn n q), v. rewrite Hlast. split; [reflexivity|].
+    right. exists n. split; [lia|]. split; [reflexivity|]. split; [exact Hv|].
+    intros m H1 H2. apply Hafter; lia.
+Qed.
+
+Lemma trie_examples :
+  let kvs := [([97]%N, 1); ([97; 98]%N, 2); ([], 3); ([97; 99]%N, 4); ([97]%N, 5)] in
+  Forall (fun kv => Bytes_key (fst kv)) kvs /\
+  trie_prefixes (trie_run trie_empty kvs) [97; 98; 99]%N = Some [([], 3); ([97]%N, 5); ([97; 98]%N, 2)]
+  /\ trie_get (trie_run trie_empty kvs) [98]%N = Some ([], 3).
+Proof.
+  cbv zeta. split; [|split].
+  - repeat (constructor; try reflexivity).
+  - vm_compute. reflexivity.
+  - vm_compute. reflexivity.
+Qed.
